@@ -37,6 +37,7 @@ func (s *JumpMark) Process(ctx context.Context, man gdbi.Manager, in gdbi.InPipe
 							//jump traveler recieved, pass on and skip reading input this cycle
 							jumperFound = true
 							out <- msg
+							verifTap(s, "m_fwd", i, msg)
 						}
 					default:
 						//if jump input produce no messages, leave jumperFound false
@@ -47,6 +48,9 @@ func (s *JumpMark) Process(ctx context.Context, man gdbi.Manager, in gdbi.InPipe
 				for _, i := range closeList {
 					s.inputs = append(s.inputs[:i], s.inputs[i+1:]...)
 				}
+				if len(closeList) > 0 {
+					verifTap(s, "m_remove", closeList, len(s.inputs))
+				}
 			}
 			if !jumperFound {
 				select {
@@ -55,9 +59,11 @@ func (s *JumpMark) Process(ctx context.Context, man gdbi.Manager, in gdbi.InPipe
 						//main input has closed, move onto closing phase
 						fmt.Printf("Got input close, messages: %d\n", mCount)
 						inputOpen = false
+						verifTap(s, "m_phase2")
 					} else {
 						out <- msg
 						mCount++
+						verifTap(s, "m_in", msg)
 					}
 				default:
 				}
@@ -88,6 +94,7 @@ func (s *JumpMark) Process(ctx context.Context, man gdbi.Manager, in gdbi.InPipe
 						//jump traveler recieved, pass on and skip reading input this cycle
 						if msg.IsSignal() {
 							returnCount++
+							verifTap(s, "m_ret", i, msg, returnCount)
 						} else {
 							if signalActive {
 								//fmt.Printf("Jumper found %s, signal %d outdated (%d)\n", msg.Current.ID, curID, mCount)
@@ -96,6 +103,7 @@ func (s *JumpMark) Process(ctx context.Context, man gdbi.Manager, in gdbi.InPipe
 							jumperFound = true
 							out <- msg
 							mCount++
+							verifTap(s, "m_fwd", i, msg)
 						}
 					}
 				default:
@@ -106,6 +114,9 @@ func (s *JumpMark) Process(ctx context.Context, man gdbi.Manager, in gdbi.InPipe
 			for _, i := range closeList {
 				s.inputs = append(s.inputs[:i], s.inputs[i+1:]...)
 			}
+			if len(closeList) > 0 {
+				verifTap(s, "m_remove", closeList, len(s.inputs))
+			}
 
 			if !jumperFound {
 				if (!signalActive && !signalOutdated) || (signalOutdated && returnCount == len(s.inputs)) {
@@ -115,9 +126,11 @@ func (s *JumpMark) Process(ctx context.Context, man gdbi.Manager, in gdbi.InPipe
 					returnCount = 0
 					fmt.Printf("Sending Signal %d\n", curID)
 					out <- &gdbi.BaseTraveler{Signal: &gdbi.Signal{ID: curID, Dest: s.Name}}
+					verifTap(s, "m_sig", curID)
 				} else if signalActive && returnCount == len(s.inputs) {
 					fmt.Printf("Received %d of %d signals, closing after %d messages\n", returnCount, len(s.inputs), mCount)
 					closed = true
+					verifTap(s, "m_close", returnCount, len(s.inputs))
 				}
 			}
 		}
@@ -173,19 +186,23 @@ func (s *Jump) Process(ctx context.Context, man gdbi.Manager, in gdbi.InPipe, ou
 					s.jumpers <- t
 				}
 				out <- t
+				verifTap(s, "j_sig", t)
 				continue
 			}
 			if s.Stmt == nil || MatchesHasExpression(t, s.Stmt) {
 				if !canceled {
 					s.jumpers <- t
+					verifTap(s, "j_jump", t)
 				}
 			}
 			if s.Emit {
 				out <- t.Copy()
 				mCount++
+				verifTap(s, "j_emit", t)
 			}
 		}
 		fmt.Printf("Closing jump, messages: %d\n", mCount)
+		verifTap(s, "j_close")
 	}()
 	return ctx
 }
